@@ -1,5 +1,5 @@
 (* C04 -- fair mutex grants the lock strictly in arrival order (no barging). *)
-From FI Require Import Base Mutex MutexSpec MutexProofs.
+From FI Require Import Base Mutex MutexSpec MutexProofs MutexMonProofs.
 
 (* Fair mode, any history, any number of futures.  [arrivals] is the list of pending
    futures in the order of the poll that first returned Pending, recomputed from the
@@ -37,6 +37,15 @@ Example C04_witness :
     [[R_UNIT]; [R_UNIT]; [R_UNIT]; [R_READY]; [R_PENDING]; [R_PENDING]; [R_UNIT]; [R_PENDING]; [R_READY]].
 Proof. vm_compute. repeat split; reflexivity. Qed.
 
+(* The boolean monitor the check evaluates on the real crate's traces (fair mode: a lock future
+   completes only as the oldest pending one, try_lock only if nobody is pending) holds on every
+   contract-respecting history of the model. *)
+Theorem C04_monitor : forall k ops,
+  legal_run (init k true) ops ->
+  mm_good (fold_left mon04_step (trace (init k true) ops) mmon0) = true.
+Proof. exact mon04_holds. Qed.
+
 Print Assumptions C04_fifo.
 Print Assumptions C04_queue_is_arrivals.
 Print Assumptions C04_drop_is_filter.
+Print Assumptions C04_monitor.
